@@ -4,6 +4,7 @@ import (
 	"fmt"
 	"go/ast"
 	"go/types"
+	"math/big"
 	"strings"
 )
 
@@ -38,7 +39,29 @@ func (ex *Exec) assume(t *Term, origin string) {
 			}
 		}
 	}
+	ex.tightenRange(t)
 	ex.st.addFact(t, origin)
+}
+
+// tightenRange: an assumed bound on a word narrows its known range (so that flag idioms such as -f are recognised).
+func (ex *Exec) tightenRange(t *Term) {
+	if t.op == "and" {
+		for _, a := range t.args {
+			ex.tightenRange(a)
+		}
+		return
+	}
+	if (t.op == "<=" || t.op == "<") && len(t.args) == 2 && t.args[1].IsConst() && t.args[0].sort.K == KInt {
+		if old, ok := ex.st.ranges[t.args[0]]; ok {
+			nb := new(big.Int).Set(t.args[1].val)
+			if t.op == "<=" {
+				nb.Add(nb, bi(1))
+			}
+			if nb.Sign() > 0 && nb.Cmp(old) < 0 {
+				ex.st.ranges[t.args[0]] = nb
+			}
+		}
+	}
 }
 
 // bindOnly records the bindings an assumption would create, without adding it as a fact.
